@@ -136,7 +136,7 @@ def simplify(prop, plan):
 def site_of(op, cfg):
     parts = [cfg['recipe']]
     for k in ('F', 'wrap', 'factory', 'inner', 'name', 'node', 'form', 'mode',
-              'A', 'B'):
+              'A', 'B', 'treestr'):
         if k in cfg:
             parts.append(str(cfg[k]))
     if cfg['recipe'] in ('DFT', 'FT'):
@@ -147,7 +147,7 @@ def site_of(op, cfg):
 
 def opt_sig(cfg):
     keys = sorted(k for k in cfg if k not in ('seed', 'recipe', 'S', 'R', 'D',
-                                              'deltas', 'shape'))
+                                              'deltas', 'shape', 'tree'))
     return ','.join('{}={}'.format(k, cfg[k]) for k in keys)[:120]
 
 
